@@ -2,6 +2,7 @@
 # Rebuilds the simulator against the current working tree of the repository
 # (/repo, or $VISIM_REPO for scratch copies used in sensitivity tests).
 # db/fs is compiled against visim/simfs through an overlay made from the current sources.
+# The build tag "verif" enables the one source hook in /repo (db/postgres/verif_hook.go).
 set -eu
 VERIF="$(cd "$(dirname "$0")" && pwd)"
 REPO="${VISIM_REPO:-/repo}"
@@ -23,7 +24,7 @@ else
 fi
 go build $MODFLAG -o "$BIN/fsrewrite" ./cmd/fsrewrite
 "$BIN/fsrewrite" "$REPO/db/fs" "$SCR/fs" "$SCR/overlay.json"
-go build $MODFLAG -overlay "$SCR/overlay.json" -o "$BIN/visim" ./cmd/visim
+go build $MODFLAG -tags verif -overlay "$SCR/overlay.json" -o "$BIN/visim" ./cmd/visim
 if [ "${1:-}" = "C19" ] || [ "${1:-}" = "all" ]; then
-  go build $MODFLAG -race -overlay "$SCR/overlay.json" -o "$BIN/visim-race" ./cmd/visimrace
+  go build $MODFLAG -tags verif -race -overlay "$SCR/overlay.json" -o "$BIN/visim-race" ./cmd/visimrace
 fi
